@@ -31,7 +31,7 @@ class MarkB(Plugin):
         return generated_code + "\\n# mark B"
 '''
 SDL = """
-type Query { user: User! me: User node(id: ID): Node thing: Thing users: [User!]! when(d: Date): Date count: Int! echo(query: String, variables: Int, response: ID, data: Int): Int }
+type Query { user: User! me: User node(id: ID): Node thing: Thing users: [User!]! when(d: Date): Date count: Int! favourite: Color shades: [Color!] echo(query: String, variables: Int, response: ID, data: Int): Int }
 type Mutation { rename(name: String!, f: Filter): User }
 type Subscription { tick: Int! }
 interface Node { id: ID! }
@@ -50,6 +50,8 @@ query Fr { user { ...UF } }
 query Li { users { id } }
 query Sc($d: Date) { when(d: $d) }
 query Cnt { count }
+query Fav { favourite }
+query Shades { shades }
 query Loc($query: String, $variables: Int, $response: ID, $data: Int) { echo(query: $query, variables: $variables, response: $response, data: $data) }
 mutation Mu($n: String!, $f: Filter) { rename(name: $n, f: $f) { id } }
 subscription Su { tick }
@@ -68,6 +70,8 @@ PAYLOADS = {
     "Li": {"users": [{"id": "1"}, {"id": "2"}]},
     "Sc": {"when": "2020-01-01"},
     "Cnt": {"count": 3},
+    "Fav": {"favourite": "GREEN"},
+    "Shades": {"shades": ["RED", "GREEN"]},
     "Loc": {"echo": 1},
     "Mu": {"rename": None},
     "Su": {"tick": 5},
@@ -75,7 +79,7 @@ PAYLOADS = {
     "RootOne": {"count": 9},
     "RootMix": {"count": 1, "users": []},
 }
-SINGLE_TOP = {"One": "user", "Un": "thing", "Fr": "user", "Li": "users", "Sc": "when", "Cnt": "count", "Loc": "echo", "Mu": "rename", "Su": "tick", "RootOne": "count"}
+SINGLE_TOP = {"One": "user", "Un": "thing", "Fr": "user", "Li": "users", "Sc": "when", "Cnt": "count", "Fav": "favourite", "Shades": "shades", "Loc": "echo", "Mu": "rename", "Su": "tick", "RootOne": "count"}
 
 ORDERS = [()]
 for _k in range(1, 4):
@@ -85,11 +89,22 @@ ORDERS.append(tuple("SEFNI"))
 ORDERS.append(tuple("INFES"))
 
 
-def generate(plugins, is_async):
+# package variants: 0 = all operations; 1 = only operations whose result holds scalars (no model class appears in any client
+# signature once ShorterResults is applied); 2 = all operations with enable_custom_operations (the client gains methods that
+# are not generated from operations)
+SCALAR_ONLY = ("Cnt", "Loc", "Sc", "Fav", "Shades")
+NVAR = 3
+
+
+def generate(plugins, is_async, variant=0):
     ops = OPS if is_async else OPS.replace("subscription Su { tick }\n", "")
+    if variant == 1:
+        ops = "\n".join(ln for ln in ops.splitlines() if any(ln.startswith(f"query {n}") for n in SCALAR_ONLY))
     job = {"schema": SDL, "queries": ops, "files": {"vplug.py": VPLUG},
            "config": {"plugins": list(plugins), "async_client": is_async, "target_package_name": "gcl",
                       "scalars": {"Date": {"type": "str"}}}}
+    if variant == 2:
+        job["config"]["enable_custom_operations"] = True
     return gen.run_subprocess_generation(job)
 
 
@@ -109,7 +124,9 @@ def norm(v):
 def main(pkg, arg):
     out = {"ops": {}, "init_names": None}
     top = importlib.import_module(pkg)
-    out["init_names"] = sorted(n for n in vars(top) if not n.startswith("_"))
+    import types
+    # names the package offers; sub-modules appear in vars(package) only as a side effect of which module imported which
+    out["init_names"] = sorted(n for n, v in vars(top).items() if not n.startswith("_") and not isinstance(v, types.ModuleType))
     mod = importlib.import_module(pkg + ".client")
     cls = mod.Client
     for name, fn in vars(cls).items():
@@ -180,23 +197,23 @@ def main(pkg, arg):
 _REF = {}
 
 
-def reference(is_async):
-    if is_async not in _REF:
-        r = generate([], is_async)
+def reference(is_async, variant=0):
+    if (is_async, variant) not in _REF:
+        r = generate([], is_async, variant)
         assert r["ok"], r
         o = observe(r["files"], is_async)
         assert o["ok"], o
-        _REF[is_async] = (r["files"], o["result"])
-    return _REF[is_async]
+        _REF[(is_async, variant)] = (r["files"], o["result"])
+    return _REF[(is_async, variant)]
 
 
 def strip_result(v):
     return v
 
 
-def run_case(order, is_async):
-    ref_files, ref_obs = reference(is_async)
-    r = generate([PLUGINS[k] for k in order], is_async)
+def run_case(order, is_async, variant=0):
+    ref_files, ref_obs = reference(is_async, variant)
+    r = generate([PLUGINS[k] for k in order], is_async, variant)
     if not r.get("ok"):
         return [f"generation failed: {r.get('exc_type')}: {(r.get('exc_msg') or r.get('harness_exc') or '')[:200]}"]
     files = r["files"]
@@ -253,12 +270,13 @@ def run_case(order, is_async):
     return probs
 
 
-def _check(idx_lo: int, n: int, i: int, is_async: bool) -> bool:
+def _check(idx_lo: int, n: int, i: int, is_async: bool, variant: int = 0) -> bool:
     k = idx_lo + pick(i, n)
     a = True if is_async else False
+    v = pick(variant, NVAR)
     with NoTracing():
         with opened_auditwall():
-            probs = run_case(ORDERS[k], a)
+            probs = run_case(ORDERS[k], a, v)
         order = ORDERS[k]
         f_before_s = "F" in order and "S" in order and order.index("F") < order.index("S")
         only_shorter = bool(probs) and all("ShorterResults returns" in p or "signature differs" in p for p in probs)
@@ -291,7 +309,7 @@ def parts_source(nparts: int = 16) -> str:
     n = len(ORDERS)
     for p in range(nparts):
         lo, hi = p * n // nparts, (p + 1) * n // nparts
-        out.append(f"def check_plugins_p{p}(i: int, is_async: bool) -> bool:\n    \"\"\"\n    post: _\n    \"\"\"\n    return _check({lo}, {hi - lo}, i, is_async)\n")
+        out.append(f"def check_plugins_p{p}(i: int, is_async: bool, variant: int) -> bool:\n    \"\"\"\n    post: _\n    \"\"\"\n    return _check({lo}, {hi - lo}, i, is_async, variant)\n")
     return "\n".join(out)
 
 
